@@ -2744,4 +2744,89 @@ theorem treach_trun {cfg : TCfg} {s0 s : TState} (h : TReach cfg s0 s) (sched : 
 
 end SharedTable
 
+
+/-! ## bounded memo -/
+namespace Memo
+
+/-- no look-up has raised, none is between pick and delete, and every look-up started has returned or is inserting -/
+structure MInvar (progs : Tid → List Nat) (s : MState) : Prop where
+  noErr : ∀ t, (s.threads t).errors = 0
+  noPick : ∀ t, (s.threads t).pc.isPicked = false
+  count : ∀ t, (s.threads t).finished + (s.threads t).todo.length + (if (s.threads t).pc = .idle then 0 else 1)
+            = (progs t).length
+
+theorem MInvar.init (cache0 : List Nat) (progs : Tid → List Nat) : MInvar progs (minit cache0 progs) := by
+  refine ⟨?_, ?_, ?_⟩ <;> intro t <;> simp [minit, MPc.isPicked]
+
+theorem MInvar.step {cfg : MCfg} (hm : cfg.mode ≠ .nonatomic) {progs : Tid → List Nat} {s s' : MState} {t : Tid}
+    (h : MInvar progs s) (hs : mstep cfg s t = some s') : MInvar progs s' := by
+  have h1 := h.noErr t
+  have h2 := h.noPick t
+  have h3 := h.count t
+  suffices hT : (s'.threads t).errors = 0 ∧ (s'.threads t).pc.isPicked = false ∧
+      ((s'.threads t).finished + (s'.threads t).todo.length + (if (s'.threads t).pc = .idle then 0 else 1)
+        = (progs t).length) ∧ ∀ u, u ≠ t → s'.threads u = s.threads u by
+    refine ⟨?_, ?_, ?_⟩ <;> intro u <;> by_cases hu : u = t
+    · subst hu; exact hT.1
+    · rw [hT.2.2.2 u hu]; exact h.noErr u
+    · subst hu; exact hT.2.1
+    · rw [hT.2.2.2 u hu]; exact h.noPick u
+    · subst hu; exact hT.2.2.1
+    · rw [hT.2.2.2 u hu]; exact h.count u
+  unfold mstep at hs
+  split at hs
+  · rename_i hpc
+    unfold mstepIdle at hs
+    split at hs
+    · simp at hs
+    · rename_i k rest htodo
+      simp only [hpc, htodo, if_true, List.length_cons] at h3
+      split at hs
+      · simp only [Option.some.injEq] at hs; subst hs
+        refine ⟨by simpa [mset] using h1, by simp [mset, hpc, MPc.isPicked], ?_, fun u hu => by simp [mset, hu]⟩
+        simp [mset, hpc]; omega
+      · split at hs
+        · simp only [Option.some.injEq] at hs; subst hs
+          refine ⟨by simpa [mset] using h1, by simp [mset, MPc.isPicked], ?_, fun u hu => by simp [mset, hu]⟩
+          simp [mset]; omega
+        · cases hmode : cfg.mode with
+          | nonatomic => exact absurd hmode hm
+          | noEvict =>
+            simp only [hmode, Option.some.injEq] at hs; subst hs
+            refine ⟨by simpa [mset] using h1, by simp [mset, MPc.isPicked], ?_, fun u hu => by simp [mset, hu]⟩
+            simp [mset]; omega
+          | atomic =>
+            simp only [hmode, Option.some.injEq] at hs; subst hs
+            refine ⟨by simpa [mset] using h1, by simp [mset, hpc, MPc.isPicked], ?_, fun u hu => by simp [mset, hu]⟩
+            simp [mset, hpc]; omega
+  · rename_i k v hpc
+    simp [hpc, MPc.isPicked] at h2
+  · rename_i k hpc
+    simp only [Option.some.injEq] at hs; subst hs
+    simp only [hpc] at h3
+    refine ⟨by simpa [mset] using h1, by simp [mset, MPc.isPicked], ?_, fun u hu => by simp [mset, hu]⟩
+    simp [mset] at h3 ⊢; omega
+
+inductive MReach (cfg : MCfg) (s0 : MState) : MState → Prop
+  | init : MReach cfg s0 s0
+  | next {s s' : MState} {t : Tid} : MReach cfg s0 s → mstep cfg s t = some s' → MReach cfg s0 s'
+
+theorem MInvar.reach {cfg : MCfg} (hm : cfg.mode ≠ .nonatomic) {cache0 : List Nat} {progs : Tid → List Nat}
+    {s : MState} (h : MReach cfg (minit cache0 progs) s) : MInvar progs s := by
+  induction h with
+  | init => exact MInvar.init cache0 progs
+  | next _ hs ih => exact ih.step hm hs
+
+theorem mreach_mrun {cfg : MCfg} {s0 s : MState} (h : MReach cfg s0 s) (sched : List Tid) :
+    MReach cfg s0 (mrun cfg s sched) := by
+  induction sched generalizing s with
+  | nil => exact h
+  | cons t ts ih =>
+    simp only [mrun]
+    split
+    · rename_i s' hs; exact ih (.next h hs)
+    · exact ih h
+
+end Memo
+
 end SqlglotModel.Threads
